@@ -19,6 +19,7 @@ INVARIANT CInv_SpRestored
 INVARIANT CInv_NoWriteAtOrAboveOriginalSp
 INVARIANT CInv_NoRedZoneWriteIfLeaf
 INVARIANT CInv_ReadsOnlyOwnSlots
+INVARIANT CInv_SpAlignedOnAccess
 INVARIANT CInv_NoCollateral
 INVARIANT CInv_FlagsRestoredIfDeclared
 INVARIANT CInv_ReportedAdjustment
